@@ -10,6 +10,8 @@
 From Coq Require Import List Bool Arith.
 From Opcua Require Import Model.ClientSub Proofs.ClientSubProofs Gen.ClientSubParams.
 Import ListNotations.
+Open Scope list_scope.
+Open Scope nat_scope.
 
 Definition C27_statement : Prop :=
   forall prog scr s, reachable sub_params (init scr prog) s ->
@@ -28,6 +30,11 @@ Proof. intros Hs. eapply run_reachable_from; [apply reach_init | exact Hs]. Qed.
 (* the side condition on the generated parameters *)
 Theorem C27_signals_do_not_block : nonblocking sub_params = true.
 Proof. vm_compute. reflexivity. Qed.
+
+(* the model's atomic read-locked sections are justified: no function calls, while it holds subMux, a function of the
+   client that acquires subMux again (extracted from client.go, client_sub.go, subscription.go on every run) *)
+Theorem C27_lock_sections_flat : nested_submux_acquisitions = [].
+Proof. reflexivity. Qed.
 
 (* (a), full quantifier: any number of Subscribe / Forget(Cancel) / recreate / pause / resume threads, any publish
    script, any interleaving. Every unfinished call can take a step, or waits for subMux whose holder can take a step;
@@ -87,6 +94,7 @@ Example C27_triple_cancel_terminals :
 Proof. vm_compute. reflexivity. Qed.
 
 Print Assumptions C27_signals_do_not_block.
+Print Assumptions C27_lock_sections_flat.
 Print Assumptions C27_partial_no_call_blocks_forever.
 Print Assumptions C27_refuted_lost_resume.
 Print Assumptions C27_unfixed_code_deadlocks.
